@@ -399,6 +399,7 @@ func TestVerifC05(t *testing.T) {
 	tc.jar.EXPECT().Sign(gomock.Any(), gomock.Any()).Return("signed-request-object", nil).AnyTimes()
 	c05S2SInit(t, tc)
 	level := c05IamLevel(tc.client)
+	c05TheLevel = level
 
 	if rp := os.Getenv("VERIF_REPLAY"); rp != "" {
 		scns, err := storage.VerifC05ReadScenarios(rp, "iam")
@@ -528,6 +529,38 @@ func TestVerifC05(t *testing.T) {
 			}
 		}
 	}
+	// replays of length >= 3 in the quick tier too: every interleaving of three requests for the mark consumers (small under the
+	// mutex), and four sequential requests with one secret for every kind ("tokens issued per secret <= 1")
+	if !thorough {
+		for _, k := range []string{"s2s", "jti"} {
+			vs := c05Variants(k, "s1")
+			s := c05Scn(k+"-3", "mem", nil, vs[0], vs[rng.Intn(len(vs))], vs[0])
+			n, cut := w.Explore(level, s, maxRuns)
+			w.Count(s, n, cut)
+		}
+	}
+	for _, k := range kinds {
+		vs := c05Variants(k, "s1")
+		init := []storage.VerifC05Init{{Kind: k, ID: "s1", Val: "clientA"}}
+		if k == "s2s" || k == "jti" {
+			init = nil
+		}
+		s := c05Scn(k+"-4-sequential", []string{"mem", "redis"}[rng.Intn(2)], init, vs[0], vs[rng.Intn(len(vs))], vs[0], vs[rng.Intn(len(vs))])
+		for ti := 0; ti < 4; ti++ {
+			for n := 0; n < 5; n++ {
+				s.Sched = append(s.Sched, ti)
+			}
+		}
+		w.Replay(level, s)
+	}
+
+	// hostile OpenID4VP responses: after the first use of a secret of ANY kind, an authorization response with several presentations
+	// whose challenges disagree is posted (validatePresentationNonce then deletes every challenge, before any signature check);
+	// the challenges are every "/"-tail of every key the session database has seen.  Then the secret is replayed.
+	for _, k := range kinds {
+		c05Cross(w, level, tc.client, k)
+	}
+
 	// nonce memory vs. the acceptance window of a JSON-LD presentation (created - skew .. expires + skew):
 	// the real validity check, the real proof.ValidAt and the real nonce check under clock control (miniredis)
 	validity, _ := strconv.Atoi(os.Getenv("VERIF_C05_VALIDITY"))
@@ -590,6 +623,8 @@ func c05Window(w *storage.VerifC05Writer, base *Wrapper, validity, skew, first, 
 		fmt.Sprintf("window maxvalidity=%s accept1=%v accept2=%v nonce1=%s nonce2=%s", maxValidity, a1, a2, n1, n2))
 }
 
+var c05TheLevel storage.VerifC05Level
+
 func c05ReplayWindows(w *storage.VerifC05Writer, base *Wrapper, path string) {
 	data, err := os.ReadFile(path)
 	if err != nil {
@@ -597,11 +632,52 @@ func c05ReplayWindows(w *storage.VerifC05Writer, base *Wrapper, path string) {
 	}
 	for _, line := range strings.Split(string(data), "\n") {
 		var op struct {
-			Op                             string
+			Op, Kind                       string
 			Validity, Skew, First, Replay int
 		}
 		if json.Unmarshal([]byte(line), &op) == nil && op.Op == "window" {
 			c05Window(w, base, op.Validity, op.Skew, op.First, op.Replay)
 		}
+		if json.Unmarshal([]byte(line), &op) == nil && op.Op == "cross" {
+			c05Cross(w, c05TheLevel, base, op.Kind)
+		}
 	}
+}
+
+func c05Cross(w *storage.VerifC05Writer, level storage.VerifC05Level, base *Wrapper, kind string) {
+	good := c05Variants(kind, "s1")[0]
+	var init []storage.VerifC05Init
+	if kind != "s2s" && kind != "jti" {
+		init = []storage.VerifC05Init{{Kind: kind, ID: "s1", Val: "clientA"}}
+	}
+	scn := c05Scn(kind+"-cross", "mem", init, good, good)
+	b, fns, err := scn.Build(level)
+	if err != nil {
+		panic(err)
+	}
+	first := fns[0]()
+	// every tail of every key seen so far, as challenge of a presentation of its own, plus a decoy so that they disagree
+	challenges := map[string]bool{"decoy-challenge": true}
+	for _, key := range b.Gate.SeenKeys() {
+		for i, c := range key {
+			if c == '/' && i+1 < len(key) {
+				challenges[key[i+1:]] = true
+			}
+		}
+	}
+	var raws []string
+	for c := range challenges {
+		raws = append(raws, c05LDPresentation("challenge", c).Raw())
+	}
+	sort.Strings(raws)
+	vpToken := "[" + strings.Join(raws, ",") + "]"
+	wr := *base
+	wr.storageEngine = c05Engine{Engine: base.storageEngine, db: b.DB}
+	state := "clientA"
+	_, herr := wr.handleAuthorizeResponseSubmission(context.Background(), HandleAuthorizeResponseRequestObject{SubjectID: verifierSubject,
+		Body: &HandleAuthorizeResponseFormdataRequestBody{State: &state, VpToken: &vpToken}})
+	hostile := c05Outcome(herr, map[string]string{"invalid or missing nonce/challenge": "missing-param"})
+	replay := fns[1]()
+	op := map[string]interface{}{"op": "cross", "kind": kind, "init": init, "threads": []storage.VerifC05Req{good, good}}
+	w.Raw(op, fmt.Sprintf("cross kind=%s first=%s hostile=%s replay=%s", kind, first, hostile, replay))
 }
